@@ -35,6 +35,32 @@ def corpus_defs(tier):
     ] + ([] if q else [
         _mc(_c('av', '{"h264"}', '{"aac"}', 3, 3, 6, False), rel='layout', facets=F_ST),
     ]), rand=[dict(gen='mux', n=150 if q else 3000, rel='layout', facets=F_ST)])
+    # --- contract: every time class x frame class x entry point from every state class ---------
+    cruns = []
+    for pre in ([0, 1, 2] if q else [0, 1, 2, 3]):
+        cruns.append(_mc(_c('contract', '{"h264"}', '{"aac"}', 2, 1, pre + 1, False, 1), facets=F_ST))
+    for pre in ([0, 1] if q else [0, 1, 2]):
+        cruns.append(_mc(_c('contract', '{"h265", "av1", "vp9"}', '{"opus"}' if q else '{"aac", "opus"}', 2, 1, pre + 1, False, 1), facets=F_ST))
+        cruns.append(_mc(_c('contract', '{"h264"}', '{"none", "opus"}', 2, 1, pre + 1, False, 1), facets=F_ST))
+    if not q:
+        cruns.append(_mc(_c('contract', '{"h264"}', '{"aac"}', 2, 1, 3, False, 2), facets=F_ST))
+    d['contract'] = dict(trace='TraceMuxide', mc=cruns, dedupe=True)
+    # --- reject: rejected calls of every class anywhere in otherwise valid histories -------------
+    d['reject'] = dict(trace='TraceMuxide', mc=[
+        _mc(_c('reject', '{"h264"}', '{"aac"}', 2, 2, 4 if q else 5, False, 1 if q else 2), rel='filtered', facets=F_ST),
+        _mc(_c('reject', '{"h265", "av1", "vp9"}', '{"opus"}', 2, 1, 4, False, 1), rel='filtered', facets=F_ST),
+        _mc(_c('reject', '{"h264"}', '{"none", "opus"}', 2, 2, 4, False, 1), rel='filtered', facets=F_ST),
+    ])
+    # --- finish: the five finish entry points anywhere, calls after finish ---------------------
+    d['finish'] = dict(trace='TraceMuxide', mc=[
+        _mc(_c('finish', '{"h264"}', '{"aac"}', 2, 2, 4 if q else 5), facets=F_ST),
+        _mc(_c('finish', '{"h265", "av1", "vp9"}', '{"none", "opus"}', 2, 1, 3 if q else 4), facets=F_ST),
+    ])
+    # --- conv: convenience calls (auto timestamps) vs. their explicit-timestamp equivalents ------
+    d['conv'] = dict(trace='TraceMuxide', mc=[
+        _mc(_c('conv', '{"h264"}', '{"aac"}', 3, 2, 5 if q else 6), rel='equiv', facets=F_ST),
+        _mc(_c('conv', '{"h265", "av1", "vp9"}', '{"opus"}', 2, 2, 4), rel='equiv', facets=F_ST),
+    ])
     return d
 
 
@@ -79,6 +105,15 @@ def run(ctx, name, cdir):
         res['behaviours'] += len(pr['replay'])
         for r in pr['replay']:
             lines.append(_set_line(r, m['rel'], m['facets']))
+    if d.get('dedupe'):
+        seen = set()
+        uniq = []
+        for o in lines:
+            k = json.dumps(o, sort_keys=True)
+            if k not in seen:
+                seen.add(k)
+                uniq.append(o)
+        lines = uniq
     for g in d.get('rand', []):
         gl = gen.generate(g['gen'], g['n'], ctx.seed, ctx.tier)
         for o in gl:
